@@ -516,7 +516,7 @@ def views(tier, rng, count):
             ops += ["CLR 0"] + [f"I 0 {hx(s)}" for s in strs[:3]]
         if kind == "NR" and rng.random() < 0.3:
             ops += ["CL 0"]
-        if K in ("cap5", "micro") and rng.random() < 0.3:
+        if (K == "cap5" and rng.random() < 0.3) or (K == "micro" and rng.random() < 0.04):
             ops += [f"I 0 {hx(sized(j, 4))}" for j in range(min(cap, 300) + 2)]   # overshoot the key space first
         route = rng.choice([["RD 0"], ["RS 0"], ["RD 0", "RS 0"]])
         probes = [f"G 0 {hx(s)}" for s in strs[:4]] + [f"G 0 {hx(b'not there')}", f"C 0 {hx(rand_str(rng))}"]
